@@ -46,6 +46,9 @@ func NewObject(objType Type, data []byte) (*Object, error) {
 }
 
 func GetObject(rootGoitPath string, hash sha.SHA1) (*Object, error) {
+	if len(hash) != sha1.Size {
+		return nil, ErrInvalidObject
+	}
 	hashString := hash.String()
 	objPath := filepath.Join(rootGoitPath, "objects", hashString[:2], hashString[2:])
 	objFile, err := os.Open(objPath)
@@ -77,7 +80,11 @@ func GetObject(rootGoitPath string, hash sha.SHA1) (*Object, error) {
 		return nil, ErrInvalidObject
 	}
 
-	objHash := checkSum.Sum(nil)
+	// the content must be what its name says
+	objHash := sha.SHA1(checkSum.Sum(nil))
+	if !objHash.Compare(hash) {
+		return nil, ErrInvalidObject
+	}
 
 	object := &Object{
 		Type: objType,
